@@ -403,6 +403,7 @@ func c11(run *ev.Run, tier string) {
 		maxLen, nrandom = 3, 2000
 	}
 	run.Rule = fmt.Sprintf("per generated aliasing-rich configuration (file_info on dir/symlink/ghost, symlink source existing on the build host, per-format umask overrides, override content lists with per-packager entries, unsorted relation lists, custom field maps incl. a disallowed ipk field, changelog, arch values every format translates): ALL operation sequences of length <= %d over {validate, name(f), package(f)} (11 symbols), all 120 orders of the five packagings, and %d random length-5 sequences, each on a freshly parsed configuration. Every package produced inside a sequence must be byte-identical to the one built from a fresh parse, and Config.Get(f) for every f after the sequence must deep-equal (function values excluded) the one of a fresh parse. Directed scenarios: a configuration that collides for exactly one format (validate / name / package of it first, then the others), platform other than linux with the name asked once or twice before packaging, settings one format refuses packaged after a file-name request. non-trivial = sequence with >=1 packaging preceded by another operation; distinct = (config, sequence)", maxLen, nrandom)
+	run.Rule += "; validate-or-build, change the set of files behind a glob / directory source, build again (file system and a fresh process as references); the nfpm binary over a larger older package"
 	run.SetExhaustive(true)
 	syms := c11Symbols()
 	var seqs [][]string
